@@ -122,6 +122,8 @@ pub enum Cop {
     Spawn { x: usize, spec: Spec },
     Send { h: usize, script: Vec<Act> },
     Call { h: usize, script: Vec<Act> },
+    /// a call whose caller stops waiting after `after` ms (the call's future is dropped)
+    CallGiveUp { h: usize, script: Vec<Act>, after: u64 },
     Ping { h: usize },
     Force { h: usize, script: Vec<Act> },
     Stop { h: usize },
